@@ -316,6 +316,18 @@ def record_eval(root, judge, desc, node_level=False):
         raised = type(e).__name__
     intact = len(w) >= 1 and w[0] is SENTINEL
     new = w[1:]
+    if not raised and intact:
+        # the list is the caller's: evaluating once more into the SAME list appends the same warnings again and touches none
+        # of the entries it already holds
+        before2 = list(w)
+        try:
+            with deadline(20):
+                evaluate.tree(root, w)
+            again = w[len(before2):]
+            if any(a is not b for a, b in zip(w, before2)) or [(x[0], x[1], id(x[2])) for x in again] != [(x[0], x[1], id(x[2])) for x in new]:
+                intact = False
+        except Exception as e:  # noqa: BLE001
+            raised = type(e).__name__
     shape = all(isinstance(x, tuple) and len(x) == 3 and isinstance(x[0], EvaluationWarning) and isinstance(x[1], str) and id(x[2]) in idx for x in new)
     obs = [[x[0].name, idx[id(x[2])]] for x in new] if shape else []
     return {"tree": tree, "obs": obs, "raised": raised, "intact": bool(intact), "shape": bool(shape), "judge": judge, "desc": desc}
